@@ -835,19 +835,54 @@ func runC10(w *World, r *Report) {
 	}
 	okDsl := true
 	detail := ""
-	for _, ref := range *fmtFn.Params[0].Referrers() {
-		switch x := ref.(type) {
-		case *ssa.Return, *ssa.DebugRef:
-		case ssa.CallInstruction:
-			if f := x.Common().StaticCallee(); f == nil || f.Name() != "NewPacketDslParserByContent" {
-				okDsl = false
-				detail = "dsl passed to " + calleeName(x)
-			}
-		default:
-			okDsl = false
-			detail = "dsl used by " + ref.String()
+	// the text goes into the character stream of the lexer (directly or through parser-package helpers) and nowhere else
+	var onlyParsed func(v ssa.Value, depth int) bool
+	onlyParsed = func(v ssa.Value, depth int) bool {
+		if v.Referrers() == nil || depth > 4 {
+			return depth <= 4
 		}
+		for _, ref := range *v.Referrers() {
+			switch x := ref.(type) {
+			case *ssa.DebugRef:
+			case *ssa.Return:
+				if depth > 0 {
+					okDsl, detail = false, "dsl returned by "+fnKey(x.Parent())
+					return false
+				}
+			case *ssa.ChangeType:
+				if !onlyParsed(x, depth) {
+					return false
+				}
+			case *ssa.Convert:
+				if !onlyParsed(x, depth) {
+					return false
+				}
+			case ssa.CallInstruction:
+				f := x.Common().StaticCallee()
+				switch {
+				case f != nil && f.Pkg != nil && strings.Contains(f.Pkg.Pkg.Path(), "antlr") && (f.Name() == "NewInputStream" || f.Name() == "NewIoStream"):
+				case f != nil && f.Blocks != nil && f.Pkg == w.Parser:
+					for i, a := range x.Common().Args {
+						if a == v && (i >= len(f.Params) || !onlyParsed(f.Params[i], depth+1)) {
+							if detail == "" {
+								detail = "dsl passed to " + calleeName(x)
+							}
+							okDsl = false
+							return false
+						}
+					}
+				default:
+					okDsl, detail = false, "dsl passed to "+calleeName(x)
+					return false
+				}
+			default:
+				okDsl, detail = false, "dsl used by "+ref.String()
+				return false
+			}
+		}
+		return true
 	}
+	onlyParsed(fmtFn.Params[0], 0)
 	if okDsl {
 		r.pass(rulePos, "the raw dsl text is only parsed or returned on error", w.pos(fmtFn.Pos()), "")
 	} else {
@@ -1221,6 +1256,8 @@ func c10SameLineAnchor(w *World, r *Report, fns []*ssa.Function) {
 					return
 				}
 				recv := stripIdentity(call.Call.Value)
+				// a variable of the enclosing function seen from inside a closure: what the enclosing function put into it
+				recv = resolveCaptured(recv, g)
 				// the hidden comment itself: an element of a token slice (query result, possibly handed to a helper) or a closure parameter
 				switch x := recv.(type) {
 				case *ssa.UnOp:
@@ -1228,7 +1265,7 @@ func c10SameLineAnchor(w *World, r *Report, fns []*ssa.Function) {
 						return
 					}
 				case *ssa.Parameter:
-					if g != fn {
+					if g != fn && x.Parent() == g {
 						return // parameter of the predicate closure: the comment under test
 					}
 				}
@@ -1268,9 +1305,11 @@ func callNameRecv(c *ssa.Call) (string, ssa.Value) {
 }
 
 // onlyInDiagnostics: every use of v is an argument of a SyntaxError(...) report or a store into a model.SyntaxError record.
-func onlyInDiagnostics(v ssa.Value) bool {
+func onlyInDiagnostics(v ssa.Value) bool { return onlyInDiagnosticsD(v, 0) }
+
+func onlyInDiagnosticsD(v ssa.Value, depth int) bool {
 	refs := v.Referrers()
-	if refs == nil {
+	if refs == nil || depth > 3 {
 		return false
 	}
 	n := 0
@@ -1280,13 +1319,22 @@ func onlyInDiagnostics(v ssa.Value) bool {
 			continue
 		case ssa.CallInstruction:
 			name := ""
+			var f *ssa.Function
 			if x.Common().IsInvoke() {
 				name = x.Common().Method.Name()
-			} else if f := x.Common().StaticCallee(); f != nil {
+			} else if f = x.Common().StaticCallee(); f != nil {
 				name = f.Name()
 			}
 			if name != "SyntaxError" && name != "AddSyntaxError" {
-				return false
+				// a recording helper of the repo: the parameter it arrives in is itself used in diagnostics only
+				if f == nil || f.Blocks == nil || theWorld == nil || f.Pkg != theWorld.Parser {
+					return false
+				}
+				for i, a := range x.Common().Args {
+					if a == v && (i >= len(f.Params) || !onlyInDiagnosticsD(f.Params[i], depth+1)) {
+						return false
+					}
+				}
 			}
 			n++
 		case *ssa.Store:
@@ -1303,4 +1351,56 @@ func onlyInDiagnostics(v ssa.Value) bool {
 		}
 	}
 	return n > 0
+}
+
+// resolveCaptured: v, inside closure g, is (a load of) a captured variable: the value the enclosing function stored into that variable
+// when it is assigned exactly once (a parameter or a local that is never re-assigned); v itself otherwise.
+func resolveCaptured(v ssa.Value, g *ssa.Function) ssa.Value {
+	if g == nil || g.Parent() == nil {
+		return v
+	}
+	var fv *ssa.FreeVar
+	byRef := false
+	switch x := v.(type) {
+	case *ssa.FreeVar:
+		fv = x
+	case *ssa.UnOp:
+		if f, ok := x.X.(*ssa.FreeVar); ok && x.Op == token.MUL {
+			fv, byRef = f, true
+		}
+	}
+	if fv == nil {
+		return v
+	}
+	out := v
+	for j, x := range g.FreeVars {
+		if x != fv {
+			continue
+		}
+		forEachInstr(g.Parent(), func(_ *ssa.BasicBlock, ins ssa.Instruction) {
+			mc, ok := ins.(*ssa.MakeClosure)
+			if !ok || mc.Fn != ssa.Value(g) || j >= len(mc.Bindings) {
+				return
+			}
+			b := mc.Bindings[j]
+			if !byRef {
+				out = stripIdentity(b)
+				return
+			}
+			if al, ok := b.(*ssa.Alloc); ok && al.Referrers() != nil {
+				var stored ssa.Value
+				n := 0
+				for _, ref := range *al.Referrers() {
+					if st, ok := ref.(*ssa.Store); ok && st.Addr == ssa.Value(al) {
+						n++
+						stored = st.Val
+					}
+				}
+				if n == 1 {
+					out = stripIdentity(stored)
+				}
+			}
+		})
+	}
+	return out
 }
